@@ -12,7 +12,7 @@ Definition img_cell (s : grid cell) (i : N) (r c : nat) : Prop :=
   exists x, gget s r c = Some x /\ ckind x = KImg i.
 
 Theorem frame_correct : forall o h w u old front scr,
-  cw o space = 1 ->
+  cw o space = 1 -> erase_law o ->
   Good o h w old -> Good o h w (gmap (resolve o) front) -> gdims front h w ->
   (u = MEmpty \/ (u = MDamaged /\ old = gmake h w cell_default)) ->
   scr_ok scr h w ->
@@ -27,14 +27,14 @@ Theorem frame_correct : forall o h w u old front scr,
   /\ (forall i r c, In (i, r, c) (places scr') <->
                     ((In (i, r, c) (places scr) /\ ~ img_cell old i r c) \/ img_cell nw i r c)).
 Proof.
-  intros o h w u old front scr Hsp Gold GN Hfd Hu Hs Hsync Himgs. cbv zeta.
+  intros o h w u old front scr Hsp Hlaw Gold GN Hfd Hu Hs Hsync Himgs. cbv zeta.
   assert (Hu' : u = MEmpty \/ u = MDamaged) by tauto.
   destruct (pass1_spec o h w u old front Gold GN Hfd Hu') as (Hfront & dec & HP).
   unfold frame. cbn [fst snd rh rw back].
   set (st := pass1 o (mkrstate h w front old (gmake h w u))) in *.
   rewrite Hfront. split; [reflexivity|].
   destruct (frame_exec o h w u old (gmap (resolve o) front) (p1_marks st) dec (rev (p1_cmds st))
-                       (rev (p1_imgs st)) Hsp Gold GN Hu HP scr Hs Hsync) as (Hs' & Hg & Hp).
+                       (rev (p1_imgs st)) Hsp Hlaw Gold GN Hu HP scr Hs Hsync) as (Hs' & Hg & Hp).
   split; [exact Hs'|]. split; [exact Hg|].
   intros i r c. rewrite Hp. unfold img_cell. split.
   - intros [[Hin Hne]|(x & Hx & Hk & Hd)].
